@@ -547,8 +547,8 @@ func (r *Runner) doBulkRefresh(a *Action, pv *any, call func(func())) error {
 				extraN++
 				continue
 			}
-			if failed[x.Key] != (x.Err != nil) {
-				return r.fail(FRefresh, "BulkRefresh(%v): result for key %d has Err=%v, loader failed=%v", keys, x.Key, x.Err, failed[x.Key])
+			if _, sup := supplied[x.Key]; failed[x.Key] && x.Err == nil || (!failed[x.Key] && x.Err != nil && (sup || !isNotFound(x.Err))) {
+				return r.fail(FRefresh, "BulkRefresh(%v): result for key %d has Err=%v, loader failed=%v, supplied=%v", keys, x.Key, x.Err, failed[x.Key], sup)
 			}
 			if v, ok := supplied[x.Key]; ok && x.Value != v {
 				// the same key may have been volunteered by the other half of the call
